@@ -27,7 +27,7 @@ static const DVD DVsDef[] = {
     {"d0",0,1,2,""},{"d1",0,2,3,""},{"d2",1,1,7,""},{"d3",1,2,7,"c5"},{"d4",0,1,9,"c6"}};
 static const CED CEsDef[] = {
     {"c0",0,1,5,10,{}},{"c1",0,2,4,6,{}},{"c2",1,3,5,10,{"d2","c0"}},{"c3",1,1,2,10,{"q"}},
-    {"c4",0,1,1,10,{}},{"c5",1,2,4,10,{}},{"c6",0,1,6,10,{}},{"c7",1,2,3,7,{"z","d1","u"}},{"c8",1,3,4,10,{"d3"}}};
+    {"c4",0,1,1,10,{}},{"c5",1,2,4,10,{}},{"c6",0,1,6,10,{}},{"c7",1,2,3,7,{"z","d1","u"}},{"c8",1,3,4,10,{"d3"}},{"c9",1,2,3,10,{"c7"}}};
 
 static const DVD* dvDef(const string& n){ for (auto& d: DVsDef) if (n==d.name) return &d; return nullptr; }
 static const CED* ceDef(const string& n){ for (auto& c: CEsDef) if (n==c.name) return &c; return nullptr; }
